@@ -414,6 +414,23 @@ func tailSym(low ssa.Value) string {
 		}
 		return ""
 	}
+	// n &^ (K-1) for a power of two K, and (n >> s) << s
+	if ok && b.Op == token.AND_NOT {
+		if m, isC := constInt(b.Y); isC && m >= 1 && (m+1)&m == 0 {
+			return fmt.Sprintf("%d:%s", m+1, stripConv(b.X).Name())
+		}
+		return ""
+	}
+	if ok && b.Op == token.SHL {
+		if q, isQ := stripConv(b.X).(*ssa.BinOp); isQ && q.Op == token.SHR {
+			s1, ok1 := constInt(q.Y)
+			s2, ok2 := constInt(b.Y)
+			if ok1 && ok2 && s1 == s2 && s1 > 0 && s1 < 31 {
+				return fmt.Sprintf("%d:%s", int64(1)<<uint(s1), stripConv(q.X).Name())
+			}
+		}
+		return ""
+	}
 	if !ok || b.Op != token.SUB {
 		return ""
 	}
@@ -437,6 +454,11 @@ func blockSym(args []ssa.Value) string {
 		if q, ok := stripConv(a).(*ssa.BinOp); ok && q.Op == token.QUO {
 			if k, ok := constInt(q.Y); ok && k > 1 {
 				return fmt.Sprintf("%d:%s", k, stripConv(q.X).Name())
+			}
+		}
+		if q, ok := stripConv(a).(*ssa.BinOp); ok && q.Op == token.SHR {
+			if k, ok := constInt(q.Y); ok && k > 0 && k < 31 {
+				return fmt.Sprintf("%d:%s", int64(1)<<uint(k), stripConv(q.X).Name())
 			}
 		}
 	}
